@@ -82,6 +82,23 @@ def _resolve(it):
         return Item(T, v)
 
 
+def _missing_meets_mismatch(items):
+    """the statement gives two rules for one position - a missing value in any argument gives a missing result, lists
+    of different lengths raise - without saying which wins when both apply: abstain"""
+    lens = set()
+    for it in items:
+        if it.scalar:
+            continue
+        try:
+            r = _resolve(it)
+        except NoOpinion:
+            continue
+        if r is not None and r.T["t"] in ("list", "regular") and not (r.T["t"] == "regular" and len(r.v) == 1):
+            lens.add(len(r.v))
+    if len(lens) > 1:
+        raise NoOpinion("a missing value meets lists of different lengths at the same position")
+
+
 def combine(items, leaf):
     """items: list of Item (one per argument) at the same position -> list of results, one per output of `leaf`
     leaf(list of (python/numpy scalar)) -> tuple of outputs"""
@@ -92,6 +109,7 @@ def combine(items, leaf):
             continue
         r = _resolve(it)
         if r is None:
+            _missing_meets_mismatch(items)
             return None                                   # a missing value in any argument
         res.append(r)
     kinds = [("s" if it.scalar else it.T["t"]) for it in res]
